@@ -55,7 +55,21 @@ pub async fn run_history(
 ) {
     let mut rng = Rng::new(sub_seed);
     let cfg = gen_cfg(&mut rng, profile);
-    let layout = gen_layout(&mut rng, cfg.ordered);
+    let mut layout = gen_layout(&mut rng, cfg.ordered);
+    // "host pressure" histories (C12): two or three hosts, one of them short of proxies, so that a
+    // failover has to put the replacement on the partner's host (a legal one-host chunk), after
+    // which the short host gets new machines and the cluster grows again
+    let host_pressure = property == "C12" && !cfg.ordered && rng.chance(1, 3);
+    if host_pressure {
+        // (at least four chunks, so that the remaining two-host chunks outweigh the one-host chunk in the link table)
+        let small = rng.urange(2, 6);
+        let mut hosts = vec![(crate::broker::host_name(0), small), (crate::broker::host_name(1), small + rng.urange(1, 4))];
+        if rng.chance(1, 4) {
+            hosts.push((crate::broker::host_name(2), small));
+        }
+        layout = crate::broker::Layout { ordered: false, hosts };
+    }
+    let mut hp_stage = if host_pressure { 0 } else { 99 };
     let mut driver = Driver::new(cfg.clone());
     if property == "C18" {
         // only the service's own view is needed
@@ -84,8 +98,46 @@ pub async fn run_history(
     for _ in 0..total {
         let op = match pending.pop() {
             Some(op) => op,
+            None if hp_stage < 99 => {
+                hp_stage += 1;
+                let small_host = crate::broker::host_name(0);
+                match hp_stage {
+                    1 => {
+                        // a cluster that takes every proxy of the short host
+                        let n = layout.hosts.iter().map(|h| h.1).min().unwrap_or(1) * 4 * if layout.hosts.len() > 2 { 1 } else { 1 };
+                        Op::AddCluster("hp".to_string(), n.max(4))
+                    }
+                    2 => {
+                        // a member on the short host fails: only the partner's host has spare proxies
+                        let member = pre.store.clusters.get("hp").and_then(|c| c.chunks.iter().flat_map(|ch| ch.proxy_addresses.iter().cloned().zip(ch.hosts.iter().cloned())).find(|(a, hst)| *hst == small_host && !pre.store.failed_proxies.contains(a)).map(|x| x.0));
+                        match member {
+                            Some(a) => Op::ReplaceFailedProxy(a),
+                            None => gen_op(&mut rng, &pre, &mut ctx),
+                        }
+                    }
+                    3..=7 => {
+                        let host = if rng.chance(1, 2) { small_host.clone() } else { crate::broker::host_name(1) };
+                        ctx.new_proxy_op(&mut rng, &host)
+                    }
+                    8..=12 => {
+                        if rng.chance(1, 2) {
+                            Op::AutoAddNodes("hp".to_string(), 4)
+                        } else {
+                            ctx.next_cluster += 1;
+                            Op::AddCluster(format!("hp{}", ctx.next_cluster), 4)
+                        }
+                    }
+                    _ => {
+                        hp_stage = 99;
+                        gen_op(&mut rng, &pre, &mut ctx)
+                    }
+                }
+            }
             None => gen_op(&mut rng, &pre, &mut ctx),
         };
+        if host_pressure && hp_stage == 1 {
+            rep.count("host_pressure_histories", 1);
+        }
         h.t0 = now_s();
         let res = driver.apply(&op).await;
         h.t1 = now_s();
